@@ -18,6 +18,11 @@ func init() {
 		&slip.FuncDoc{
 			Name: "/",
 			Args: []*slip.DocArg{
+				{
+					Name: "number",
+					Type: "number",
+					Text: "The number to invert or to divide by the _numbers_.",
+				},
 				{Name: "&rest"},
 				{
 					Name: "numbers",
